@@ -4,7 +4,9 @@ tree this is run on (run it on the unchanged tree only; committed). Used to know
 group contains when extraction fails on a changed tree (bounded stand-in selection)."""
 import glob, json, os, sys
 sys.path.insert(0, os.path.dirname(os.path.abspath(__file__)))
+os.environ['VERIF_NO_NORMALISE'] = '1'
 import runner
+import extract
 V = runner.VERIF
 out = {}
 for p in sorted(glob.glob(os.path.join(V, 'contracts', 'groups', '*.rs'))):
@@ -14,3 +16,9 @@ for p in sorted(glob.glob(os.path.join(V, 'contracts', 'groups', '*.rs'))):
               'failed': sorted(set(f['obligation'] for f in r.get('failed', [])))}
     print(g, r['status'], len(out[g]['units']), 'units', len(out[g]['labels']), 'labels', out[g]['failed'])
 json.dump(out, open(os.path.join(V, 'contracts', 'baseline.json'), 'w'), indent=1)
+binders = {}
+for (g, u), names in sorted(extract.BINDERS_SEEN.items(), key=lambda kv: (str(kv[0][0]), kv[0][1])):
+    if g and names:
+        binders.setdefault(g, {})[u] = names
+json.dump(binders, open(os.path.join(V, 'contracts', 'binders.json'), 'w'), indent=1)
+print('binders of', sum(len(v) for v in binders.values()), 'units written')
